@@ -76,6 +76,7 @@ pub fn case_from_value(v: &Value) -> Result<SeqCase, CaseResult> {
         verdict: Verdict::Inconclusive(format!("bad case: {e}")),
         nontrivial: false,
         classes: vec![],
+        excluded: vec![],
     })
 }
 
